@@ -195,6 +195,17 @@ class Program:
                     for a in n.names:
                         self.modglobals[mod][a.asname or a.name] = ('import', src, a.name)
         self.register_module_values()
+        # a module-level function of the vocabulary that moved to another module of the package (and is unique there) is still
+        # found under its vocabulary module
+        from .inline import load_vocabulary
+        byname = collections.defaultdict(list)
+        for (m_, n_), u_ in list(self.funcs.items()):
+            byname[n_].append(u_)
+        for q in load_vocabulary():
+            if ':' in q and '<locals>' not in q:
+                m_, n_ = q.rsplit(':', 1)
+                if (m_, n_) not in self.funcs and len(byname.get(n_, [])) == 1:
+                    self.funcs[(m_, n_)] = byname[n_][0]
 
     def register_module_values(self):
         """module-level names bound to the result of a call of something imported from outside the package (struct.Struct(...),
